@@ -287,6 +287,13 @@ Theorem C14_batch_dataframe_vs_array_refuted :
   verdicts validate_X_batch v_init gap_history_arr = [true; false].
 Proof. exact batch_df_vs_array_refuted. Qed.
 
+(** ---- the checker of the correspondence is the verified validator --------------------------------- *)
+Theorem C14_checker_is_the_validator : forall k st x seen acc cols dim known,
+  let c := mkCall (Some x) None None [(true, x, seen)] acc cols dim known in
+  fst (fst (call_model k st c)) = negb (user_early k x) && is_accept (user_validator k st x) /\
+  snd (fst (call_model k st c)) = if user_early k x then st else state_of (user_validator k st x).
+Proof. exact call_model_single. Qed.
+
 Print Assumptions C14_stream_accepts_iff.
 Print Assumptions C14_stream_accept_effect.
 Print Assumptions C14_stream_accepts_iff_history.
@@ -314,3 +321,4 @@ Print Assumptions C14_container_irrelevant_history.
 Print Assumptions C14_container_irrelevant_dataframe_stream.
 Print Assumptions C14_container_irrelevant_dataframe_univariate.
 Print Assumptions C14_batch_dataframe_vs_array_refuted.
+Print Assumptions C14_checker_is_the_validator.
